@@ -157,6 +157,27 @@ impl Pair {
         self.opipe = None;
     }
 
+    /// half-open connection: the master's side is closed (it sees EOF and will reconnect), the
+    /// outstation never learns of it and keeps its session until the server task replaces it
+    /// with the next connection; bytes in flight are lost
+    pub fn half_open(&mut self) {
+        if let Some(p) = &self.mpipe {
+            p.set_eof();
+        }
+        self.flights.clear();
+        self.held_m2o.clear();
+        self.held_o2m.clear();
+        self.connected = false;
+        self.k.settle();
+        self.collect();
+        self.flights.clear();
+        self.held_m2o.clear();
+        self.held_o2m.clear();
+        self.mpipe = None;
+        // the outstation's end stays open but nobody is listening any more
+        self.opipe = None;
+    }
+
     pub fn handlers(&self) -> (Box<dyn ReadHandler>, Box<dyn AssociationHandler>, Box<dyn AssociationInformation>) {
         (
             Box::new(Handler { log: self.mcb.clone(), tag: "" }),
@@ -253,6 +274,15 @@ impl Pair {
             self.collect();
             if !self.deliver_due() {
                 break;
+            }
+        }
+        // an endpoint that ended its session has closed its socket: the peer sees the end of
+        // the connection as well (as with TCP)
+        if self.connected {
+            let o_closed = self.opipe.as_ref().map(|p| p.is_closed()).unwrap_or(false);
+            let m_closed = self.mpipe.as_ref().map(|p| p.is_closed()).unwrap_or(false);
+            if o_closed || m_closed {
+                self.cut();
             }
         }
     }
